@@ -3082,19 +3082,32 @@ theorem request_link {A : Nat → Attempt → Prop} (rid : Nat) : ∀ (script : 
       generalize drainConn t r = q at pd ⊢
       obtain ⟨s2, o⟩ := q
       cases o <;> exact pd
-    have afterDrainRec : ∀ (t : State) (r : Nat) (rc' : ReqCfg) (rt : Retry), NoEarlyCfg rc' → Prov A t → Link none t →
+    have afterDrainRec : ∀ (t : State) (r : Nat) (w : Option Exc) (rc' : ReqCfg) (rt : Retry), NoEarlyCfg rc' → Prov A t → Link none t →
         Link none (match drainConn t r with
           | (s, some e) => (s, Result.raised e)
-          | (s, none) => request s rid rc' rt rest).1 := by
-      intro t r rc' rt hn pt lt
+          | (s, none) =>
+            match w with
+            | some e => (s, Result.raised e)
+            | none => request s rid rc' rt rest).1 := by
+      intro t r w rc' rt hn pt lt
       have pp := drainConn_prov (r := r) pt
       have pd := drainConn_link (r := r) pt lt
       generalize drainConn t r = q at pp pd ⊢
       obtain ⟨s2, o⟩ := q
       cases o with
       | some e => exact pd
-      | none => exact ih s2 rc' rt pp pd hA' hn
+      | none =>
+        cases w with
+        | some e => exact pd
+        | none => exact ih s2 rc' rt pp pd hA' hn
+    have hneHop : NoEarlyCfg rc.hop := hne
+    have hneSee : NoEarlyCfg rc.seeOther := hne
     rw [request]
+    -- a failure before the `try:` changes nothing
+    cases preflight rc a with
+    | some e => exact h
+    | none =>
+    dsimp only
     have l1 := getConn_link h p.sockInj'
     generalize hg : getConn s = res at l1
     obtain ⟨s1, eg⟩ := res
@@ -3109,7 +3122,7 @@ theorem request_link {A : Nat → Attempt → Prop} (rid : Nat) : ∀ (script : 
       · exact l1
       · exact afterDiscard _ _ _ pp pd
       · exact afterDiscard _ _ _ pp pd
-      · exact afterDiscardRec _ _ _ _ hne pp pd
+      · exact afterDiscardRec _ _ _ _ hneHop pp pd
     | ok c =>
       dsimp only
       have hl := getConn_lease hg
@@ -3133,7 +3146,7 @@ theorem request_link {A : Nat → Attempt → Prop} (rid : Nat) : ∀ (script : 
           · exact absurd hh (q3 _ _ _)
         · exact afterDiscard _ _ _ pp pd
         · exact afterDiscard _ _ _ pp pd
-        · exact afterDiscardRec _ _ _ _ hne pp pd
+        · exact afterDiscardRec _ _ _ _ hneHop pp pd
       | resp r =>
         dsimp only
         have p2 := okr r rfl
@@ -3152,11 +3165,11 @@ theorem request_link {A : Nat → Attempt → Prop} (rid : Nat) : ∀ (script : 
         | some e => exact lp
         | none =>
           dsimp only
-          have hne' : ∀ status : Nat, NoEarlyCfg (if (status == 303) = true then { rc with methodRetryable := true, isHead := false } else rc) := by
+          have hne' : ∀ status : Nat, NoEarlyCfg (if (status == 303) = true then rc.seeOther else rc.hop) := by
             intro status; split
-            · exact hne
-            · exact hne
-          have fin : ∀ (loc ra : Bool) (status : Nat), Link none
+            · exact hneSee
+            · exact hneHop
+          have fin : ∀ (loc ra : Bool) (status : Nat) (w : Option Exc), Link none
               (if (rc.redirect && isRedirect s3 r loc) = true then
                 match retries.incrementResp with
                 | none =>
@@ -3168,7 +3181,10 @@ theorem request_link {A : Nat → Attempt → Prop} (rid : Nat) : ∀ (script : 
                 | some retries' =>
                   match drainConn s3 r with
                   | (s, some e) => (s, Result.raised e)
-                  | (s, none) => request s rid (if (status == 303) = true then { rc with methodRetryable := true, isHead := false } else rc) retries' rest
+                  | (s, none) =>
+                    match w with
+                    | some e => (s, Result.raised e)
+                    | none => request s rid (if (status == 303) = true then rc.seeOther else rc.hop) retries' rest
               else if retries.isRetry rc.methodRetryable status ra = true then
                 match retries.incrementResp with
                 | none =>
@@ -3178,9 +3194,12 @@ theorem request_link {A : Nat → Attempt → Prop} (rid : Nat) : ∀ (script : 
                 | some retries' =>
                   match drainConn s3 r with
                   | (s, some e) => (s, Result.raised e)
-                  | (s, none) => request s rid rc retries' rest
+                  | (s, none) =>
+                    match w with
+                    | some e => (s, Result.raised e)
+                    | none => request s rid rc.hop retries' rest
               else (markReturned s3 r, Result.resp r)).1 := by
-            intro loc ra status
+            intro loc ra status w
             have mr : Link none (markReturned s3 r) :=
               setResp_linkx r _ lp (fun _ => rfl) (fun _ _ d => d) (fun _ _ => Or.inl id) (fun _ _ => Or.inl rfl)
             split
@@ -3188,13 +3207,13 @@ theorem request_link {A : Nat → Attempt → Prop} (rid : Nat) : ∀ (script : 
               · split
                 · exact afterDrain _ _ _ pp lp
                 · exact mr
-              · exact afterDrainRec _ _ _ _ (hne' status) pp lp
+              · exact afterDrainRec _ _ _ _ _ (hne' status) pp lp
             · split
               · split
                 · exact afterDrain _ _ _ pp lp
-                · exact afterDrainRec _ _ _ _ hne pp lp
+                · exact afterDrainRec _ _ _ _ _ hneHop pp lp
               · exact mr
-          exact fin _ _ _
+          exact fin _ _ _ _
 
 /-- histories without early release -/
 def NoEarlyOp : Op → Prop
